@@ -1056,9 +1056,33 @@ def is_temporary(a):
 
 
 def short_path(p):
-    p = re.sub(r"::<[^<>]*(<[^<>]*>[^<>]*)*>", "", p)
-    p = re.sub(r"<'[a-z_]+(, '[a-z_]+)*>", "", p)
-    return p
+    """drop generic-argument segments (`::<T, 'a>`) and lifetimes; keep `<X as Trait>` / `<impl ..>` qualifiers"""
+    out = []
+    i = 0
+    n = len(p)
+    while i < n:
+        if p.startswith("::<", i):
+            # find matching '>'
+            depth = 0
+            j = i + 2
+            while j < n:
+                if p[j] == "<":
+                    depth += 1
+                elif p[j] == ">" and (j == 0 or p[j - 1] != "-"):
+                    depth -= 1
+                    if depth == 0:
+                        break
+                j += 1
+            seg = p[i + 3:j]
+            if " as " in seg:
+                out.append(p[i:j + 1])
+            i = j + 1
+            continue
+        out.append(p[i])
+        i += 1
+    r = "".join(out)
+    r = re.sub(r"<'[a-z_]+(, '[a-z_]+)*>", "", r)
+    return r
 
 
 def parse_const(v, ty):
@@ -1071,6 +1095,13 @@ def parse_const(v, ty):
             return ("lit", "str", v.strip('"'))
     if v.startswith("'") and v.endswith("'"):
         return ("lit", "char", v[1:-1])
+    mb = re.match(r"^Branch\(\[(.*)\]\)(: .*)?$", v)
+    if mb and ("str" in ty or "str" in (mb.group(2) or "")):
+        try:
+            bs = bytes(int(x.strip().split("_")[0]) for x in mb.group(1).split(",") if x.strip())
+            return ("lit", "str", bs.decode("utf8"))
+        except Exception:
+            pass
     m = re.match(r"^(-?\d+)(_?[iu]\d+|_?usize|_?isize)?$", v)
     if m:
         return lit_int(int(m.group(1)))
